@@ -5,6 +5,16 @@ use proptest::prelude::*;
 
 use super::{paragraph, sel_str, sentence, text};
 
+/// multi-byte / odd content for the non-prose parts of markup (tags, comments, code, math, URLs)
+pub fn noise() -> BoxedStrategy<String> {
+    prop_oneof![
+        3 => sel_str(&["é", "⌘ key", "😀", "ünï cödé", "中文", "x", "", "a\u{301}", "𝒜𝒷", "—", "naïve café", "\u{200b}", "İ"]),
+        1 => super::unicode_run(),
+        1 => super::plain_word(),
+    ]
+    .boxed()
+}
+
 fn md_inline() -> BoxedStrategy<String> {
     prop_oneof![
         6 => sentence(),
@@ -22,6 +32,12 @@ fn md_inline() -> BoxedStrategy<String> {
         1 => sentence().prop_map(|s| format!("${s}$")),
         1 => sentence().prop_map(|s| format!("$${s}$$")),
         1 => sentence().prop_map(|s| format!("<b>{s}</b>")),
+        1 => (noise(), sentence()).prop_map(|(n, s)| format!("<kbd title=\"{n}\">{s}</kbd>")),
+        1 => (noise(), sentence()).prop_map(|(n, s)| format!("<!-- {n} --> {s}")),
+        1 => (noise(), sentence()).prop_map(|(n, s)| format!("`{n}` {s}")),
+        1 => (noise(), sentence()).prop_map(|(n, s)| format!("${n}$ {s}")),
+        1 => (noise(), sentence()).prop_map(|(n, s)| format!("[{s}](https://example.com/{n})")),
+        1 => (noise(), sentence()).prop_map(|(n, s)| format!("[{s}](x \"{n}\")")),
         1 => sentence().prop_map(|s| format!("<span class=\"x\">{s}")),
         1 => sentence().prop_map(|s| format!("[[{s}]]")),
         1 => (sentence(), sentence()).prop_map(|(a, b)| format!("[[{a}|{b}]]")),
@@ -58,6 +74,10 @@ fn md_block() -> BoxedStrategy<String> {
         1 => sel_str(&["---", "***", "___", "<div>\n", "<div>\nx\n</div>", "[ref]: https://example.com \"Titel\"", "[^1]: A footnot.", "<details><summary>x</summary>"]),
         1 => (md_line()).prop_map(|l| format!("---\ntitle: {l}\n---")),
         1 => md_line().prop_map(|l| format!("$$\n{l}\n$$")),
+        1 => (noise(), md_line()).prop_map(|(n, l)| format!("<div>\n{n}\n</div>\n\n{l}")),
+        1 => (noise(), noise(), md_line()).prop_map(|(a, b, l)| format!("<!-- {a} -->\n<!-- {b} -->\n\n{l}")),
+        1 => (noise(), md_line()).prop_map(|(n, l)| format!("```\n{n}\n```\n{l}")),
+        1 => (noise(), md_line()).prop_map(|(n, l)| format!("    {n}\n\n{l}")),
     ]
     .boxed()
 }
@@ -91,6 +111,8 @@ fn html_node() -> BoxedStrategy<String> {
         1 => paragraph().prop_map(|p| format!("<p>{p}")),
         1 => paragraph().prop_map(|p| format!("<p {p}")),
         1 => paragraph().prop_map(|p| format!("<!-- {p} -->")),
+        1 => (noise(), paragraph()).prop_map(|(n, p)| format!("<!-- {n} --><p title=\"{n}\">{p}</p>")),
+        1 => (noise(), paragraph()).prop_map(|(n, p)| format!("<script>'{n}'</script>{p}")),
         1 => paragraph().prop_map(|p| format!("<!-- {p}")),
         1 => paragraph().prop_map(|p| format!("<script>var teh = \"{p}\";</script>")),
         1 => paragraph().prop_map(|p| format!("<style>.teh {{ color: red; }} /* {p} */</style>")),
@@ -122,6 +144,10 @@ fn typst_piece() -> BoxedStrategy<String> {
         1 => paragraph().prop_map(|p| format!("#figure(caption: [{p}], image(\"an imge.png\"))")),
         1 => paragraph().prop_map(|p| format!("#link(\"https://a.b\")[{p}]")),
         1 => paragraph().prop_map(|p| format!("#rgb(\"{p}\")")),
+        1 => (noise(), paragraph()).prop_map(|(n, p)| format!("#image(\"{n}.png\") {p}")),
+        1 => (noise(), paragraph()).prop_map(|(n, p)| format!("$ {n} $ {p}")),
+        1 => (noise(), paragraph()).prop_map(|(n, p)| format!("`{n}` {p}")),
+        1 => (noise(), paragraph()).prop_map(|(n, p)| format!("// {n}\n{p}")),
         1 => paragraph().prop_map(|p| format!("#cite(\"{p}\", \"more {p}\")")),
         1 => paragraph().prop_map(|p| format!("#image(\"{p}\", alt: \"an imge\")")),
         1 => paragraph().prop_map(|p| format!("#raw(\"{p}\")")),
